@@ -146,6 +146,18 @@ func genMultiline(t *rapid.T, kind string) string {
 	breaks := []string{"\n", "\r", "\r\n", "\n\r", "\n\n", "\r\r", "\r\n\r\n", " \n ", "\t"}
 	n := rapid.IntRange(0, 10).Draw(t, "n")
 	var sb strings.Builder
+	if rapid.IntRange(0, 24).Draw(t, "long") == 0 {
+		// long inputs: offsets past 1024 / 2048 and line numbers in the hundreds
+		line := genOptInput(t, kind)
+		br := rapid.SampledFrom(breaks[:4]).Draw(t, "longbr")
+		for sb.Len() < rapid.IntRange(1000, 2600).Draw(t, "longlen") {
+			sb.WriteString(line)
+			sb.WriteString(br)
+			if len(line) == 0 {
+				sb.WriteString("x")
+			}
+		}
+	}
 	for i := 0; i < n; i++ {
 		switch rapid.IntRange(0, 3).Draw(t, "k") {
 		case 0:
@@ -153,7 +165,7 @@ func genMultiline(t *rapid.T, kind string) string {
 		default:
 			sb.WriteString(genOptInput(t, kind))
 		}
-		if sb.Len() > 200 {
+		if sb.Len() > 3000 {
 			break
 		}
 	}
